@@ -2942,7 +2942,7 @@ func genPools(repo string, tiny bool) (string, []string) {
 	for _, f := range []string{"Query.countEntities", "Query.Count", "Query.entityAt", "Query.EntityAt", "World.exchangeArch", "World.exchangeBatchNoNotify", "World.setRelationArch", "World.setRelationBatchNoNotify"} {
 		t.joinIf[f] = true
 	}
-	for _, f := range []string{"World.exchangeArch", "World.exchangeBatchNoNotify", "World.setRelationArch", "World.setRelationBatchNoNotify", "World.newEntities", "World.newEntityTarget"} {
+	for _, f := range []string{"World.exchangeArch", "World.exchangeBatchNoNotify", "World.setRelationArch", "World.setRelationBatchNoNotify", "World.newEntities", "World.newEntityTarget", "World.copyTo"} {
 		t.usesEff[f] = true
 		t.joinIf[f] = true
 	}
@@ -2963,12 +2963,13 @@ func genPools(repo string, tiny bool) (string, []string) {
 	t.structs["EntityEvent"] = true
 	t.effExt["archetype.Remove"] = "archRemoveF"
 	t.nilChecks = map[string]bool{}
-	for _, f := range []string{"World.newEntityTarget", "World.newEntities", "World.exchangeArch", "World.exchangeBatchNoNotify", "World.setRelationArch", "World.setRelationBatchNoNotify", "Query.setArchetype", "Query.stepArchetype", "Query.nextArchetypeSimple", "Query.nextArchetypeFiltered", "Query.nextArchetypeBatch", "Query.nextBatch", "Query.nextNode", "Query.nextNodeOrArchetype", "Query.nextArchetype", "Query.Next",
+	for _, f := range []string{"World.copyTo", "World.newEntityTarget", "World.newEntities", "World.exchangeArch", "World.exchangeBatchNoNotify", "World.setRelationArch", "World.setRelationBatchNoNotify", "Query.setArchetype", "Query.stepArchetype", "Query.nextArchetypeSimple", "Query.nextArchetypeFiltered", "Query.nextArchetypeBatch", "Query.nextBatch", "Query.nextNode", "Query.nextNodeOrArchetype", "Query.nextArchetype", "Query.Next",
 		"Query.countEntities", "Query.Count", "Query.entityAt", "Query.EntityAt", "World.findArchetypeSlow", "World.findOrCreateArchetypeSlow", "World.findOrCreateArchetype", "World.NewEntity", "World.notifyExchange", "World.exchange", "World.newEntitiesNoNotify", "World.removeEntities", "World.getExchangeMask", "World.exchangeNoNotify", "World.createArchetype", "World.setRelation", "World.RemoveEntity", "World.removeArchetype", "World.cleanupArchetype", "World.cleanupArchetypes", "World.createEntity", "World.createEntities", "World.Has", "World.HasUnchecked", "World.Mask",
 		"World.relationError", "World.checkRelation", "World.getRelation", "World.getRelationUnchecked"} {
 		t.nilChecks[f] = true
 	}
 	t.effExt["archetype.AllocN"] = "archAllocNF"
+	t.effExt["archetype.Set"] = "archSetF"
 	t.effExt["archetype.SetEntity"] = "archSetEntityF"
 	t.effExt["archNode.RemoveArchetype"] = "nodeRemoveArchetypeF"
 	t.effExt["archetype.Reset"] = "archResetF"
@@ -3003,6 +3004,7 @@ func genPools(repo string, tiny bool) (string, []string) {
 		"staleF":               {"stale.entityIndex", "Nat → entityIndex"},
 		"archResetF":           {"eff.archReset", "Ext → Option Nat → Ext × Unit"},
 		"asBatchF":             {"assert.batch", "GoAny → Option batchArchetypes"},
+		"archSetF":             {"eff.archSet", "Ext → Option Nat → BitVec 32 → BitVec 8 → GoAny → Ext × GoAny"},
 		"nextBatchF":           {"eff.nextBatch", "Ext → Query → Ext × Query × Bool"},
 		"nextNodeF":            {"eff.nextNode", "Ext → Query → Ext × Query × Bool"},
 		"closeQueryF":          {"eff.closeQuery", "Ext → Query → Ext × Query"},
@@ -3078,7 +3080,7 @@ func genPools(repo string, tiny bool) (string, []string) {
 		"Entity.IsZero", "World.removeArchetype", "World.cleanupArchetype", "World.cleanupArchetypes", "World.RemoveEntity",
 		"World.createArchetype", "World.setRelation", "World.getExchangeMask", "World.exchangeNoNotify", "World.removeEntities", "World.newEntitiesNoNotify", "World.notifyExchange", "World.exchange", "World.NewEntity",
 		"World.findArchetypeSlow", "World.findOrCreateArchetypeSlow", "World.findOrCreateArchetype",
-		"batchArchetypes.Get", "batchArchetypes.Len", "batchArchetypes.Add", "World.exchangeArch", "World.exchangeBatchNoNotify", "World.setRelationArch", "World.setRelationBatchNoNotify", "World.newEntities", "World.newEntityTarget", "Query.countEntities", "Query.Count", "Query.entityAt", "Query.EntityAt",
+		"batchArchetypes.Get", "batchArchetypes.Len", "batchArchetypes.Add", "World.exchangeArch", "World.exchangeBatchNoNotify", "World.setRelationArch", "World.setRelationBatchNoNotify", "World.newEntities", "World.newEntityTarget", "World.copyTo", "Query.countEntities", "Query.Count", "Query.entityAt", "Query.EntityAt",
 		"Query.checkNext", "Query.setArchetype", "Query.stepArchetype", "Query.nextArchetypeSimple", "Query.nextArchetypeFiltered",
 		"Query.nextArchetypeBatch", "Query.nextBatch", "Query.nextNode", "Query.nextNodeOrArchetype", "Query.nextArchetype", "Query.Next",
 	}
